@@ -1,7 +1,9 @@
 #!/bin/sh
 # detect_all.sh: every own mutant and every seeded change against the quick tier of the property it targets.
-# Prints one line per patch; "MISS" when the targeted check stays green.  Uses /repo (apply + revert).
-cd /verif || exit 2
+# Prints one line per patch; "MISS" when the targeted check stays green.  Uses $REPO (apply + revert);
+# `tools/iso.sh det tools/detect_all.sh iso` runs it on scratch clones without touching /repo and /verif.
+if [ "$1" = iso ]; then VERIF="$(pwd)"; REPO="$(dirname "$VERIF")/repo"; export VERIF REPO; fi
+cd "${VERIF:-/verif}" || exit 2
 miss=0; n=0
 for f in mutants/*.diff; do
   id=$(basename $f | cut -c1-3 | tr a-z A-Z)
